@@ -97,6 +97,17 @@ CHECKS.update({
                tech="sanitizers (ASan, UBSan), valgrind memcheck, allocation counters over the monitored workloads",
                note="a clean run is 'no report on these executions', not memory safety; N=255 machines and container extremes are covered by the C14/C20/C13 engines"),
 })
+CHECKS["C14"] = ("widemon",
+    "one machine per size: quick = 22 sizes around powers of two up to 255 (9 of them also with a root head), thorough = every N in 1..255; stateId<T>()==position "
+    "is a static_assert over all states; at run time every k < N is the destination of changeTo+update / react / query / immediate self transition / "
+    "replayTransition in three visiting orders and the exact callback sequence, control.stateId(), access<T>() identity and activeStateId()/isActive(j) are compared.",
+    "trusts the expected sequences in harness/widemon.cpp; behaviour inside callbacks is trivial here (the behavioural monitors run on N <= 8)",
+    "runtime monitoring: exhaustive enumeration over (N, k) with exact callback-sequence and object-identity comparison")
+CHECKS["C12"] = ("fsmmon+widemon",) + CHECKS["C12"][1:]
+CHECKS["C12"] = (CHECKS["C12"][0], CHECKS["C12"][1].replace("(All pairs for larger N: see C14's engine once built.)",
+    "widemon adds every (saver activity, loader activity) pair incl. inactive for the sampled sizes (all pairs for N <= 33 in quick, for every N in 1..255 in thorough)."),
+    CHECKS["C12"][2], "runtime monitoring: online trace monitors on random histories + exhaustive enumeration of (saver, loader) pairs per machine size")
+ENGINES.append({"name": "widemon", "path": "harness/widemon.cpp, vlib/wide.py", "serves_properties": ["C14", "C12"], "kind_free_text": "one generated machine per state count 1..255"})
 ENGINES.append({"name": "fsmmon", "path": "harness/fsmmon.cpp (+fsm_*.hpp), vlib/fsm.py", "serves_properties": ["C01","C02","C03","C04","C05","C06","C07","C08","C09","C10","C11","C12","C15","C16","C17","C18"],
                 "kind_free_text": "instrumented machine configurations driven by seeded/enumerated histories with online trace monitors"})
 
